@@ -406,9 +406,9 @@ def run(tier, seed, replay=None):
         cases += [("sha1", "sha1 " + hx(d)) for d in [b"", b"abc", b"a" * 55, b"a" * 56, b"a" * 63, b"a" * 64, b"a" * 65,
                                                       b"abcdbcdecdefdefgefghfghighijhijkijkljklmklmnlmnomnopnopq", b"x" * 200]
                   + [rbytes(rng, rng.randrange(0, 300)) for _ in range(10 if q else 300)]]
-        cases += gen_chunk_cases(rng, 260 if q else 20000, tier)
-        cases += gen_head_cases(rng, 330 if q else 20000, tier)
-        cases += gen_ws_cases(rng, 330 if q else 6000, tier)
+        cases += gen_chunk_cases(rng, 500 if q else 20000, tier)
+        cases += gen_head_cases(rng, 600 if q else 20000, tier)
+        cases += gen_ws_cases(rng, 600 if q else 6000, tier)
         cases += gen_send_cases(rng, 80 if q else 1500)
     lap("build done")
     lines = [c[1] for c in cases]
@@ -526,6 +526,11 @@ def run(tier, seed, replay=None):
             mm = re.match(r"(req|res) rv=(\d+) used=(\d+) status=(\d+)", fin_i)
             if mm:
                 classes.add((kind, mm.group(2), mm.group(4)))
+            headpart = re.split(rb"\r?\n\r?\n", raw)[0] if re.search(rb"\r?\n\r?\n", raw) else None
+            if mm and headpart is not None and not raw.startswith((b"\r\n", b"\n")) and mm.group(2) == "0" and \
+                    (re.search(rb"\r(?!\n)", headpart + b"\r\n") or re.search(rb"[\x00-\x09\x0b\x0c\x0e-\x1f]", headpart)):
+                viol("ctl", idx, "a head containing a bare CR / control character was accepted")
+                continue
             clean_first = first is not None and first != b"" and not re.search(rb"[\x00-\x1f\x7f-\xff]", first.rstrip(b"\r"))
             if mm and kind == "req" and clean_first and mm.group(2) == "0":
                 fl = first.rstrip(b"\r")
